@@ -4,6 +4,7 @@ import (
 	"bufio"
 	"fmt"
 	"io"
+	"time"
 
 	gots "github.com/Comcast/gots/v2"
 	"github.com/Comcast/gots/v2/packet"
@@ -461,7 +462,93 @@ func c16MaxLen(r *engine.Run) int {
 	return 8
 }
 
+// ---- huge streams (isolated workers: a stack overflow or a runaway is attributed to its case)
+
+// c16Huge: Lead bytes in front of the first plausible header, generated on the fly (no memory):
+// Kind "false-syncs": every Gap-th lead byte is a 0x47 whose header is implausible, the others are 0x00;
+// Kind "run": no 0x47 at all in the lead (one uninterrupted run).
+type c16Huge struct {
+	Kind string `json:"kind"`
+	Lead int64  `json:"lead_bytes"`
+	Gap  int    `json:"gap,omitempty"`
+	Size int    `json:"bufio_size"`
+}
+
+type c16GenReader struct {
+	block []byte // lead pattern, a multiple of the gap long
+	all   int64  // lead bytes in total
+	left  int64  // lead bytes still to hand out
+	tail  []byte
+}
+
+func (g *c16GenReader) Read(p []byte) (int, error) {
+	if g.left > 0 {
+		n := len(p)
+		if int64(n) > g.left {
+			n = int(g.left)
+		}
+		if n > len(g.block) {
+			n = len(g.block)
+		}
+		// the pattern has a period that divides len(block) and every Read starts on a period boundary or
+		// continues one: keep the phase
+		off := int((g.all - g.left) % int64(len(g.block)))
+		if n > len(g.block)-off {
+			n = len(g.block) - off
+		}
+		copy(p, g.block[off:off+n])
+		g.left -= int64(n)
+		return n, nil
+	}
+	if len(g.tail) == 0 {
+		return 0, io.EOF
+	}
+	n := copy(p, g.tail)
+	g.tail = g.tail[n:]
+	return n, nil
+}
+
+func c16CheckHuge(c c16Huge) engine.Result {
+	var res engine.Result
+	block := make([]byte, 1<<16)
+	if c.Kind == "false-syncs" {
+		for i := 0; i < len(block); i += c.Gap {
+			block[i] = 0x47 // followed by 00 00 00 (or 47 47 47 for gap 1): adaptation_field_control 00
+		}
+	} else {
+		for i := range block {
+			block[i] = byte(i%0x46 + 1) // 01..46, never 47
+		}
+	}
+	var pkt [188]byte
+	for i := range pkt {
+		pkt[i] = byte(0x50 + i%31)
+	}
+	copy(pkt[:], []byte{0x47, 0x01, 0x00, 0x13})
+	g := &c16GenReader{block: block, all: c.Lead, left: c.Lead, tail: append(append([]byte{}, pkt[:]...), pkt[:]...)}
+	engine.SetCurrent("packet.Sync", []byte(fmt.Sprintf("%s lead=%d gap=%d", c.Kind, c.Lead, c.Gap)))
+	br := bufio.NewReaderSize(g, c.Size)
+	var off int64
+	var err error
+	if engine.Guard(&res, "Sync", func() { off, err = packet.Sync(br) }) {
+		return res
+	}
+	res.Evals++
+	res.Nontrivial = 1
+	if err != nil || off != c.Lead {
+		res.Failf("Sync|huge-"+c.Kind+"|offset", "%d lead bytes (%s, gap %d): Sync returned %d, %v; want %d, nil", c.Lead, c.Kind, c.Gap, off, err, c.Lead)
+		return res
+	}
+	var next [188]byte
+	if _, rerr := io.ReadFull(br, next[:]); rerr != nil || next != pkt {
+		res.Failf("Sync|huge-"+c.Kind+"|reader-position", "%d lead bytes: the next read does not return the packet (% x..., %v)", c.Lead, next[:6], rerr)
+	}
+	res.Outcome(c.Kind, err)
+	return res
+}
+
 func init() {
+	engine.RegisterIsolated("C16", "sync-huge-streams")
 	engine.Register(&engine.Property{
 		ID: "C16", Title: "Sync search finds the first plausible packet header and stops the reader on it", Level: "model_checking",
 		Scenarios: []engine.ScenarioRunner{
@@ -588,6 +675,32 @@ func init() {
 					}
 				},
 				Check: c16CheckLong, Batch: 16,
+			},
+			&engine.Isolated[c16Huge]{
+				Enum: engine.Enum[c16Huge]{
+					Name: "sync-huge-streams",
+					Rule: "generated streams (no memory) in isolated worker processes, default Go stack limit: (a) N implausible sync bytes (every 1st / 2nd / 4th / 188th lead byte is a 0x47 whose header has adaptation_field_control 00) in front of the first plausible header for N = 10^3, 10^5, 10^6, 10^7 (thorough also 3*10^7): the offset is the number of lead bytes and the next read returns the packet - a search that keeps something per rejected candidate (recursion, a list) ends in a stack overflow or in the watchdog; (b) ONE uninterrupted run of 2^31+600 (thorough also 2^32+600) bytes without any 0x47 in front of the header: offsets beyond 32 bits of run length. bufio sizes 4096 / 65536.",
+					Gen: func(r *engine.Run, emit func(c16Huge)) {
+						ns := []int64{1000, 100000, 1000000, 10000000}
+						if r.Thorough() {
+							ns = append(ns, 30000000)
+						}
+						for _, n := range ns {
+							for _, gap := range []int{1, 2, 4, 188} {
+								if n*int64(gap) > 200000000 {
+									continue
+								}
+								emit(c16Huge{"false-syncs", n * int64(gap), gap, 4096})
+							}
+						}
+						emit(c16Huge{"run", 1<<31 + 600, 0, 65536})
+						if r.Thorough() {
+							emit(c16Huge{"run", 1<<32 + 600, 0, 4096})
+						}
+					},
+					Check: c16CheckHuge, Batch: 1,
+				},
+				CPULimit: 300 * time.Second,
 			},
 			&engine.Tree{
 				Name: "sync-scripted-tree",
